@@ -322,6 +322,10 @@ pub fn grid_for<T: Clone + 'static>(pname: &str, mk: &dyn Fn() -> T) -> (u64, u6
 }
 
 pub fn run_grid() -> (u64, u64) {
+    runner::sample(
+        json!({"cell": "kind=Weak pointee=String state=target-dropped", "laws": ["as_ptr == into_ptr", "null iff empty", "from_ptr(into_ptr(v)) is v", "counts unchanged by the round trip", "inc returns as_ptr", "inc adds one", "dec removes one", "counts restored", "container load / load_full / swap / compare_and_swap / into_inner return the stored value", "counts restored after the container round trip"]}),
+        1,
+    );
     let mut cells = 0;
     let mut checks = 0;
     let mut add = |r: (u64, u64)| {
